@@ -6,6 +6,7 @@ import (
 	"go/ast"
 	"go/parser"
 	"go/token"
+	"go/types"
 	"os"
 	"path/filepath"
 	"sort"
@@ -55,6 +56,7 @@ type hoSite struct {
 	lits     []*ast.FuncLit
 	encl     *ast.FuncDecl
 	specName string
+	targs    []string // type arguments of a generic helper at this site
 	// locals that only held a function literal handed to the helper: kept "used" after the argument is dropped
 	keepAlive []keepAlive
 }
@@ -89,7 +91,7 @@ func keepNewlines(b []byte) string {
 
 // SpecialiseHigherOrder returns replacement contents for the files it rewrites and a description of what it did.
 // A helper that hands its function parameter on to another helper is resolved in rounds: first the outer one.
-func SpecialiseHigherOrder(dir string, overlay map[string][]byte) (map[string][]byte, []string) {
+func SpecialiseHigherOrder(dir string, overlay map[string][]byte, protected map[string]bool) (map[string][]byte, []string) {
 	cur := map[string][]byte{}
 	for k, v := range overlay {
 		cur[k] = v
@@ -97,7 +99,7 @@ func SpecialiseHigherOrder(dir string, overlay map[string][]byte) (map[string][]
 	changed := map[string][]byte{}
 	var all []string
 	for round := 0; round < 4; round++ {
-		files, done := specialiseRound(dir, cur)
+		files, done := specialiseRound(dir, cur, protected)
 		if len(done) == 0 {
 			break
 		}
@@ -114,7 +116,7 @@ func SpecialiseHigherOrder(dir string, overlay map[string][]byte) (map[string][]
 }
 
 // specialiseRound: one pass.
-func specialiseRound(dir string, overlay map[string][]byte) (map[string][]byte, []string) {
+func specialiseRound(dir string, overlay map[string][]byte, protected map[string]bool) (map[string][]byte, []string) {
 	ents, err := os.ReadDir(dir)
 	if err != nil {
 		return nil, nil
@@ -311,6 +313,24 @@ func specialiseRound(dir string, overlay map[string][]byte) (map[string][]byte, 
 		if len(c.params) == 0 || variadic || isLookaheadPrimitive(d) {
 			continue
 		}
+		// helpers the rules themselves recognise as anchors (the delimited-list loop, the look-ahead wrappers) are read
+		// as they stand
+		pkey := d.Name.Name
+		if d.Recv != nil && len(d.Recv.List) == 1 {
+			t := d.Recv.List[0].Type
+			if st, ok := t.(*ast.StarExpr); ok {
+				t = st.X
+			}
+			if ix, ok := t.(*ast.IndexExpr); ok {
+				t = ix.X
+			}
+			if id, ok := t.(*ast.Ident); ok {
+				pkey = id.Name + "." + d.Name.Name
+			}
+		}
+		if protected[pkey] {
+			continue
+		}
 		// p is used only by calling it
 		locals := defined(d.Body)
 		for _, hp := range c.params {
@@ -502,6 +522,13 @@ func specialiseRound(dir string, overlay map[string][]byte) (map[string][]byte, 
 							}
 						}
 					}
+					// a method value on a plain name that is itself handed to the helper (`helper(p, .., p.parse)`):
+					// inside the helper that name is the corresponding parameter, provided the helper never rebinds it
+					if r, ok := x.X.(*ast.Ident); ok && sub == "" && !imports[s.file][r.Name] && !typeNames[r.Name] {
+						if pn := paramReceiving(c.decl, s.call, r.Name); pn != "" {
+							sub = pn + "." + x.Sel.Name
+						}
+					}
 				case *ast.FuncLit:
 					inner := defined(x)
 					closed := true
@@ -537,6 +564,28 @@ func specialiseRound(dir string, overlay map[string][]byte) (map[string][]byte, 
 			}
 		}
 	}
+	// generic helpers: the type arguments each call site instantiates them with
+	var instances map[string][]string
+	for _, c := range cands {
+		if c.rejected != "" || c.decl.Type.TypeParams == nil {
+			continue
+		}
+		if instances == nil {
+			instances = loadInstances(dir, overlay)
+		}
+		for _, s := range c.sites {
+			if _, plain := s.call.Fun.(*ast.Ident); !plain {
+				c.rejected = "generic helper called through a selector or with explicit type arguments"
+				break
+			}
+			ta := instances[fmt.Sprintf("%s:%d", s.file, off(s.nameID.Pos()))]
+			if len(ta) == 0 {
+				c.rejected = "type arguments of a generic helper not known at a call site"
+				break
+			}
+			s.targs = ta
+		}
+	}
 	// names of specialised copies
 	var done []string
 	edits := map[string][]textEdit{}
@@ -568,10 +617,15 @@ func specialiseRound(dir string, overlay map[string][]byte) (map[string][]byte, 
 		specs := map[string]string{}
 		specLits := map[string][]*ast.FuncLit{}
 		specLitFile := map[string]string{}
+		specTArgs := map[string][]string{}
 		var specOrder []string
 		for _, s := range c.sites {
 			key := strings.Join(s.subst, "\x00")
+			if len(s.targs) > 0 {
+				key += "\x01" + strings.Join(s.targs, "\x00")
+			}
 			if _, ok := specs[key]; !ok {
+				specTArgs[key] = s.targs
 				specs[key] = fmt.Sprintf("%s__ho%d", n, len(specs)+1)
 				specOrder = append(specOrder, key)
 				specLits[key] = s.lits
@@ -609,7 +663,7 @@ func specialiseRound(dir string, overlay map[string][]byte) (map[string][]byte, 
 		d := c.decl
 		line := fset.Position(d.Pos()).Line
 		for _, key := range specOrder {
-			subst := strings.Split(key, "\x00")
+			subst := strings.Split(strings.SplitN(key, "\x01", 2)[0], "\x00")
 			var es []textEdit
 			base := off(d.Pos())
 			body := src[c.file][off(d.Pos()):off(d.End())]
@@ -627,10 +681,32 @@ func specialiseRound(dir string, overlay map[string][]byte) (map[string][]byte, 
 						ns = append(ns, id.Name)
 					}
 				}
+				ftext := text(c.file, f.Type.Pos(), f.Type.End())
+				if d.Type.TypeParams != nil {
+					// substitute type parameters inside the kept parameter types
+					var tes []textEdit
+					tb := off(f.Type.Pos())
+					ti := 0
+					tsub := map[string]string{}
+					for _, tf := range d.Type.TypeParams.List {
+						for _, id := range tf.Names {
+							if ti < len(specTArgs[key]) {
+								tsub[id.Name] = specTArgs[key][ti]
+							}
+							ti++
+						}
+					}
+					walk(f.Type, nil, func(id *ast.Ident, parent ast.Node) {
+						if t, ok := tsub[id.Name]; ok {
+							tes = append(tes, textEdit{off(id.Pos()) - tb, off(id.End()) - tb, t})
+						}
+					})
+					ftext = string(applyEdits([]byte(ftext), tes))
+				}
 				if len(f.Names) == 0 {
-					keepFields = append(keepFields, text(c.file, f.Type.Pos(), f.Type.End()))
+					keepFields = append(keepFields, ftext)
 				} else if len(ns) > 0 {
-					keepFields = append(keepFields, strings.Join(ns, ", ")+" "+text(c.file, f.Type.Pos(), f.Type.End()))
+					keepFields = append(keepFields, strings.Join(ns, ", ")+" "+ftext)
 				}
 			}
 			plp, prp := off(d.Type.Params.Opening)+1-base, off(d.Type.Params.Closing)-base
@@ -642,6 +718,40 @@ func specialiseRound(dir string, overlay map[string][]byte) (map[string][]byte, 
 				prepl += nl
 			}
 			es = append(es, textEdit{plp, prp, prepl})
+			// a generic helper: the copy is the instance the call sites use (type arguments from the type checker)
+			if d.Type.TypeParams != nil {
+				tsub := map[string]string{}
+				ti := 0
+				for _, f := range d.Type.TypeParams.List {
+					for _, id := range f.Names {
+						if ti < len(specTArgs[key]) {
+							tsub[id.Name] = specTArgs[key][ti]
+						}
+						ti++
+					}
+				}
+				es = append(es, textEdit{off(d.Type.TypeParams.Opening) - base, off(d.Type.TypeParams.Closing) + 1 - base, ""})
+				locals := defined(d)
+				repl := func(id *ast.Ident, parent ast.Node) {
+					if t, ok := tsub[id.Name]; ok && !locals[id.Name] {
+						es = append(es, textEdit{off(id.Pos()) - base, off(id.End()) - base, t})
+					}
+				}
+				// parameter types that stay, results, body
+				for _, f := range d.Type.Params.List {
+					keepField := len(f.Names) == 0
+					for _, id := range f.Names {
+						if _, isDrop := dropName[id.Name]; !isDrop {
+							keepField = true
+						}
+					}
+					_ = keepField
+				}
+				if d.Type.Results != nil {
+					walk(d.Type.Results, nil, repl)
+				}
+				walk(d.Body, nil, repl)
+			}
 			litOf := map[string]*ast.FuncLit{}
 			for i, hp := range c.params {
 				if i < len(specLits[key]) {
@@ -658,7 +768,11 @@ func specialiseRound(dir string, overlay map[string][]byte) (map[string][]byte, 
 								return
 							}
 						}
-						es = append(es, textEdit{off(id.Pos()) - base, off(id.End()) - base, "(" + sub + ")"})
+						if plainName(sub) {
+							es = append(es, textEdit{off(id.Pos()) - base, off(id.End()) - base, sub})
+						} else {
+							es = append(es, textEdit{off(id.Pos()) - base, off(id.End()) - base, "(" + sub + ")"})
+						}
 						return
 					}
 					// handed on as an argument
@@ -854,4 +968,108 @@ func singleFuncLitDef(fn *ast.FuncDecl, name string) (*ast.FuncLit, *ast.AssignS
 		return nil, nil
 	}
 	return lit, def
+}
+
+
+// paramReceiving: at call, the plain identifier name is passed as an argument to a named, non-function parameter of
+// helper d that the helper never assigns, increments or takes the address of; returns that parameter's name.
+func paramReceiving(d *ast.FuncDecl, call *ast.CallExpr, name string) string {
+	pos := -1
+	for i, a := range call.Args {
+		if id, ok := a.(*ast.Ident); ok && id.Name == name {
+			pos = i
+		}
+	}
+	if pos < 0 {
+		return ""
+	}
+	i := 0
+	pn := ""
+	for _, f := range d.Type.Params.List {
+		if len(f.Names) == 0 {
+			i++
+			continue
+		}
+		for _, id := range f.Names {
+			if i == pos {
+				if _, isFn := f.Type.(*ast.FuncType); !isFn {
+					pn = id.Name
+				}
+			}
+			i++
+		}
+	}
+	if pn == "" || pn == "_" {
+		return ""
+	}
+	rebound := false
+	ast.Inspect(d.Body, func(n ast.Node) bool {
+		switch x := n.(type) {
+		case *ast.AssignStmt:
+			for _, l := range x.Lhs {
+				if id, ok := l.(*ast.Ident); ok && id.Name == pn {
+					rebound = true
+				}
+			}
+		case *ast.IncDecStmt:
+			if id, ok := x.X.(*ast.Ident); ok && id.Name == pn {
+				rebound = true
+			}
+		case *ast.UnaryExpr:
+			if id, ok := x.X.(*ast.Ident); ok && x.Op == token.AND && id.Name == pn {
+				rebound = true
+			}
+		case *ast.RangeStmt:
+			for _, e := range []ast.Expr{x.Key, x.Value} {
+				if id, ok := e.(*ast.Ident); ok && id.Name == pn {
+					rebound = true
+				}
+			}
+		}
+		return true
+	})
+	if rebound {
+		return ""
+	}
+	return pn
+}
+
+
+// loadInstances type-checks the package (no SSA) and returns, for every identifier that denotes an instantiated generic
+// function, its type arguments as source text valid inside the package; keyed by "file:offset".
+func loadInstances(dir string, overlay map[string][]byte) map[string][]string {
+	out := map[string][]string{}
+	p, err := Load(dir, overlay, "", false)
+	if err != nil {
+		return out
+	}
+	qual := func(pk *types.Package) string {
+		if pk == p.Types {
+			return ""
+		}
+		return pk.Name()
+	}
+	for id, inst := range p.Root.TypesInfo.Instances {
+		var ts []string
+		for i := 0; i < inst.TypeArgs.Len(); i++ {
+			ts = append(ts, types.TypeString(inst.TypeArgs.At(i), qual))
+		}
+		f := p.Fset.File(id.Pos())
+		out[fmt.Sprintf("%s:%d", f.Name(), f.Offset(id.Pos()))] = ts
+	}
+	return out
+}
+
+
+// plainName: an identifier or a dotted chain of identifiers (needs no parentheses in call position).
+func plainName(s string) bool {
+	if s == "" {
+		return false
+	}
+	for _, r := range s {
+		if !(r == '.' || r == '_' || unicode.IsLetter(r) || unicode.IsDigit(r)) {
+			return false
+		}
+	}
+	return true
 }
